@@ -1,5 +1,5 @@
 (* C01 — isolation (plan level): systems placed side by side never conflict. *)
-From Shred Require Import Base SrcParams Plan PlanObs PlanLemmas PlanInv PlanLoc PlanBuild PlanProps.
+From Shred Require Import Base SrcParams Plan PlanObs PlanLemmas PlanInv PlanLoc PlanBuild PlanProps Exec ExecProps ExecPlan.
 
 (* For every registration program: two systems in different groups of one stage have no
    W/W, W/R or R/W overlap of their declared access. *)
@@ -17,6 +17,31 @@ Theorem C01_conflict_meaning :
   (exists x, In x w1 /\ In x w2) \/ (exists x, In x w1 /\ In x r2) \/ (exists x, In x r1 /\ In x w2).
 Proof. exact rw_conflict_spec. Qed.
 Print Assumptions C01_conflict_meaning.
+
+(* ---- run time: EVERY trace of the executor model (every interleaving of the groups of a
+   stage, hence every pool size and thread timing) ---- *)
+
+(* The windows [fetch .. release] of two systems whose declared accesses conflict are
+   disjoint in every trace: one has released before the other fetches. *)
+Theorem C01_conflicting_windows_never_overlap :
+  forall rs b t,
+  plan rs = Ok b -> Forall reg_time_ok1 rs -> NoDup (sys_tags rs) ->
+  traces_disp (layout_tags b) (b_tl b) t ->
+  forall a c, In a (placed b) -> In c (placed b) -> s_tag a <> s_tag c -> sys_conflict a c = true ->
+  precedes (ER (s_tag a)) (EF (s_tag c)) t \/ precedes (ER (s_tag c)) (EF (s_tag a)) t.
+Proof. exact run_conflicting_windows_disjoint. Qed.
+Print Assumptions C01_conflicting_windows_never_overlap.
+
+(* dispatch_seq is one of those traces, and every recorded trace that the acceptor of suite S2
+   accepts is one of them *)
+Theorem C01_sequential_trace_is_a_trace : forall l tl, traces_disp l tl (trace_seq l tl).
+Proof. exact trace_seq_is_trace. Qed.
+Print Assumptions C01_sequential_trace_is_a_trace.
+
+Theorem C01_acceptor_sound :
+  forall l tl tr, NoDup (concat (concat l)) -> accept_disp l tl tr = true -> traces_disp l tl tr.
+Proof. exact accept_sound. Qed.
+Print Assumptions C01_acceptor_sound.
 
 Example C01_example :
   let rs := [RSys 1 [] [] [8] [] 3%Z; RSys 2 [] [] [] [8] 3%Z; RSys 3 [] [] [8] [9] 3%Z] in
